@@ -374,6 +374,31 @@ fn c16_oracle(c: &C16Case, run: &ServerRun) -> Vec<Violation> {
     v
 }
 
+/// Chooses the leader's and the mismatching follower's program: two of the plain templates, or a
+/// near miss (programs made of the same characters that differ only in the position of a line
+/// break after a comment; programs that differ only in their last characters).
+fn mismatch_pair(rng: &mut ChaCha8Rng, ps: &mut PolicySpec) -> u8 {
+    match rng.random_range(0..6) {
+        0 => {
+            ps.template = 10;
+            11
+        }
+        1 => {
+            ps.template = 11;
+            10
+        }
+        2 => {
+            ps.template = 0;
+            12
+        }
+        3 => {
+            ps.template = 12;
+            0
+        }
+        _ => [0u8, 1, 4].into_iter().find(|t| *t != ps.template).unwrap(),
+    }
+}
+
 fn c16_gen(seed: u64, k: u64) -> C16Case {
     let mut rng = entropy::rng(seed, 0xc16, k);
     let n = if k % 2 == 0 { 2 } else { 3 };
@@ -386,7 +411,7 @@ fn c16_gen(seed: u64, k: u64) -> C16Case {
     let (what, must_err) = match k % 3 {
         0 => {
             // program mismatch at follower f
-            let other = [0u8, 1, 4].into_iter().find(|t| *t != ps.template).unwrap();
+            let other = mismatch_pair(&mut rng, &mut ps);
             ps.template_at[f] = Some(other);
             (format!("program-mismatch: follower {f} has template {other}, leader template {}", ps.template), vec![f, leader])
         }
@@ -398,7 +423,7 @@ fn c16_gen(seed: u64, k: u64) -> C16Case {
         }
         1 => {
             // n = 2: no third party to name; use a program mismatch with the other arrival order
-            let other = [0u8, 1, 4].into_iter().find(|t| *t != ps.template).unwrap();
+            let other = mismatch_pair(&mut rng, &mut ps);
             ps.template_at[f] = Some(other);
             (format!("program-mismatch: follower {f} has template {other}, leader template {}", ps.template), vec![f, leader])
         }
@@ -421,7 +446,7 @@ impl Check for C16 {
         "exploration"
     }
     fn rule(&self) -> String {
-        "each evaluation is one simulated execution (n in {2,3}) in which exactly one party's policy is incompatible: a different program at one follower, a different leader named by a follower that still regards itself as a follower (n=3), or an ill-typed program at any party; the explorer chooses the arrival order (validate before or after that follower's schedule) and all other RPC orders. Oracle: the schedule calls of that follower and of the leader (ill-typed: of that party) end with an error, no destination is sent a successful result, zero MPC messages are exchanged, no task panics. distinct = (mismatch kind, configuration, coordination order) hash".into()
+        "each evaluation is one simulated execution (n in {2,3}) in which exactly one party's policy is incompatible: a different program at one follower (another template, or a near miss: the same characters with the line break after a `//` comment moved so that the function differs, or a difference in the last characters only), a different leader named by a follower that still regards itself as a follower (n=3), or an ill-typed program at any party; the explorer chooses the arrival order (validate before or after that follower's schedule) and all other RPC orders. Oracle: the schedule calls of that follower and of the leader (ill-typed: of that party) end with an error, no destination is sent a successful result, zero MPC messages are exchanged, no task panics. distinct = (mismatch kind, configuration, coordination order) hash".into()
     }
     fn assumptions(&self) -> Vec<String> {
         vec!["two self-declared leaders are out of scope (they wait for each other until the client's RPC timeout)".into(), "a compatible third party may keep waiting for a run request; that is not flagged here".into()]
@@ -928,7 +953,18 @@ fn c17_oracle(spec: &ServerSpec, run: &ServerRun) -> Vec<Violation> {
         let alive: Vec<&(usize, u64)> = run.stalled_machines.iter().filter(|m| m.0 == p).collect();
         // a policy that is still waiting for a peer (which failed or was cancelled) legitimately holds
         // its permit; a permit held although no led policy of this party is alive has leaked
-        let alive_led = alive.iter().filter(|m| led.contains(&m.1)).count();
+        // ... unless the leader itself was told to cancel it (accepted, or the cancel call never
+        // returned): cancellation ends the policy at the party that was asked, whatever its peers do
+        let cancelled: Vec<u64> = run.calls.iter().filter(|c| c.what == "cancel" && c.party == p && c.ok != Some(false)).map(|c| c.comp).collect();
+        for m in alive.iter().filter(|m| led.contains(&m.1) && cancelled.contains(&m.1)) {
+            v.push(viol(
+                "policy-lingers-after-cancel",
+                "policy-lingers-after-cancel",
+                format!("party {p} leads computation {} and was asked to cancel it ({:?}), but its state machine is still alive at the end of the run and holds {} of {} permits", m.1, run.calls.iter().find(|c| c.what == "cancel" && c.party == p && c.comp == m.1).map(|c| c.ok), spec.concurrency[p].saturating_sub(run.permits[p]), spec.concurrency[p]),
+                &sv,
+            ));
+        }
+        let alive_led = alive.iter().filter(|m| led.contains(&m.1) && !cancelled.contains(&m.1)).count();
         let held = spec.concurrency[p].saturating_sub(run.permits[p]);
         if held > alive_led {
             v.push(viol(
@@ -1030,7 +1066,7 @@ impl Check for C17 {
         "exploration"
     }
     fn rule(&self) -> String {
-        "each evaluation is one simulated execution of a batch of 1..8 policies (n in {2,3}, mixed leaders, concurrency 1..3 per party, destinations present or absent, programs with and without constants) over one shared semaphore per party; a third of the runs inject one failing RPC (FailBefore = request lost, FailAfter = response lost) into a validate / run / consts call, a third inject a cancel at a random point. Monitor at every quiescence: permits held per party, and led computations between 'first run request sent' and 'state machine stopped', never exceed its concurrency; at the end every party has all permits back; for a failed RPC the affected policy ends at the caller (its machine stops; run / consts: an error notification if it has a destination); fault-free batches must satisfy the C13 oracle for every policy. distinct = (batch, fault, coordination order) hash".into()
+        "each evaluation is one simulated execution of a batch of 1..8 policies (n in {2,3}, mixed leaders, concurrency 1..3 per party, destinations present or absent, programs with and without constants) over one shared semaphore per party; a third of the runs inject one failing RPC (FailBefore = request lost, FailAfter = response lost) into a validate / run / consts call, a third inject a cancel at a random point. Monitor at every quiescence: permits held per party, and led computations between 'first run request sent' and 'state machine stopped', never exceed its concurrency; at the end every party has all permits back (a led policy may keep its permit only while it legitimately waits for a failed peer, never after the leader itself was asked to cancel it); for a failed RPC the affected policy ends at the caller (its machine stops; run / consts: an error notification if it has a destination); fault-free batches must satisfy the C13 oracle for every policy. distinct = (batch, fault, coordination order) hash".into()
     }
     fn assumptions(&self) -> Vec<String> {
         vec!["followers of a policy whose leader failed may keep waiting (no RPC timeouts in the core); only the caller side is judged".into()]
